@@ -539,7 +539,7 @@ def build_baseline(root: str, package: str = "solvor") -> dict:
                 tree = ast.parse(fh.read())
             for q, fn in units(tree):
                 _, dig, order, variants = normal_form(fn)
-                out[f"{rel}::{q}"] = {"skeleton": dig, "names": order, "variants": variants, "raw": _raw(fn)}
+                out[f"{rel}::{q}"] = {"skeleton": dig, "names": order, "variants": variants, "raw": _raw(fn), "closures": sorted(x.name for x in fn.body if isinstance(x, (ast.FunctionDef, ast.AsyncFunctionDef)))}
             for q, _i, stmt in module_units(tree):
                 _, dig, order, variants = normal_form(_wrap(stmt))
                 out[f"{rel}::{q}"] = {"skeleton": dig, "names": order, "variants": variants, "raw": _raw(stmt)}
